@@ -73,6 +73,7 @@ type l1world struct {
 	crashy      bool
 	fired       int
 	emptied     map[int]bool
+	commitFailed bool
 	roH         map[int]bool
 }
 
@@ -425,6 +426,7 @@ func (w *l1world) exec(op *kop, hstats map[string]int) (known string, ok bool) {
 	case "commit":
 		w.s3.resetLog()
 		name, err := db.Commit(ctx)
+		w.commitFailed = err != nil
 		out.s(";")
 		okerr(out, err)
 		if err == nil {
@@ -887,8 +889,18 @@ func runL1History(g *gen, mode string, nops int, hstats map[string]int, faulty, 
 			case "commit":
 				menu = []faultSpec{{"P", "n", "*", 0, fErr}, {"P", "c", "*", 0, fErr}, {"P", "m", "*", g.r.Intn(2), fErr}, {"D", "c", "*", g.r.Intn(2), fErr}}
 			case "delhist":
-				menu = []faultSpec{{"G", "m", "*", g.r.Intn(3), fErr}, {"G", "c", "*", g.r.Intn(2), fErr}, {"G", "n", "*", g.r.Intn(3), fErr},
-					{"D", "n", "*", g.r.Intn(2), fErr}, {"D", "m", "*", g.r.Intn(2), fErr}, {"D", "c", "*", 0, fErr}}
+				// history deletion visits versions in map-iteration order: a fault keyed by "the n-th
+				// request" would hit different objects in the implementation and in the model, so
+				// faults are keyed by object (its n-th request), or hit the whole operation
+				menu = []faultSpec{{"L", "c", "*", 0, fErr}, {"D", "c", "*", 0, fErr}}
+				if len(known) > 0 {
+					v := w.nm.nm(known[g.r.Intn(len(known))])
+					menu = append(menu, faultSpec{"G", "m", v, g.r.Intn(2), fErr}, faultSpec{"G", "c", v, 0, fErr}, faultSpec{"D", "m", v, 0, fErr})
+				}
+				if n := len(w.nn.m); n > 0 {
+					nd := "%" + strconv.Itoa(1+g.r.Intn(n))
+					menu = append(menu, faultSpec{"G", "n", nd, g.r.Intn(3), fErr}, faultSpec{"D", "n", nd, 0, fErr})
+				}
 			}
 			if len(menu) > 0 {
 				op.faults = []faultSpec{menu[g.r.Intn(len(menu))]}
@@ -902,6 +914,22 @@ func runL1History(g *gen, mode string, nops int, hstats map[string]int, faulty, 
 		}
 		if len(op.faults) > 0 || (faulty && g.r.Intn(12) == 0) {
 			w.exec(&kop{kind: "recover", seed: g.r.Int63n(1000000)}, hstats)
+		}
+		if op.kind == "commit" && w.commitFailed && faulty {
+			// the handle of a failed commit: retry once (finding F-C14-1: the retry reports success
+			// without writing), look at the bucket, then stop using the handle — mast has marked
+			// the unsaved nodes clean and what the handle does next depends on marshalling caches
+			w.exec(&kop{kind: "commit", h: op.h}, hstats)
+			w.exec(&kop{kind: "recover", seed: g.r.Int63n(1000000)}, hstats)
+			hstats["commit_retry_after_failure"]++
+			var nl []int
+			for _, h := range live {
+				if h != op.h {
+					nl = append(nl, h)
+				}
+			}
+			live = nl
+			w.commitFailed = false
 		}
 		if kn != "" {
 			known = append(known, kn)
